@@ -956,23 +956,9 @@ func (c *Ctx) ruleDropScope(dropFn *ssa.Function) {
 			n++
 			cons := fnKey(f) + "→RemoveAll#path"
 			arg := call.Common().Args[0]
-			// the path derives from a repo function of (directory, address) parameters
-			okPath := false
-			if pc, ok := arg.(*ssa.Call); ok {
-				if g := pc.Call.StaticCallee(); g != nil && g.Pkg == f.Pkg {
-					allParams := true
-					usesAddr := false
-					for _, a := range pc.Call.Args {
-						if _, isP := a.(*ssa.Parameter); !isP {
-							allParams = false
-						}
-						if strings.HasSuffix(typeStr(a.Type()), "address.Address") {
-							usesAddr = true
-						}
-					}
-					okPath = allParams && usesAddr
-				}
-			}
+			// the path derives from a repo function of (directory, address) parameters — computed
+			// here, or handed in by every caller of a helper that only removes
+			okPath := c.pathFromAddress(arg, f, 0)
 			if okPath {
 				c.ok("G5", cons, call.Pos(), "the removed directory is computed from the database address and directory handed to Destroy")
 			} else {
@@ -981,6 +967,58 @@ func (c *Ctx) ruleDropScope(dropFn *ssa.Function) {
 		})
 	}
 	c.floor("G5", "directory removals", n, 1)
+}
+
+// pathFromAddress: v is the result of a same-package function applied to parameters one of
+// which is the database address — or a parameter of f that every static caller fills that way.
+func (c *Ctx) pathFromAddress(v ssa.Value, f *ssa.Function, depth int) bool {
+	if depth > 2 {
+		return false
+	}
+	switch x := v.(type) {
+	case *ssa.Call:
+		g := x.Call.StaticCallee()
+		if g == nil || g.Pkg != f.Pkg {
+			return false
+		}
+		allParams, usesAddr := true, false
+		for _, a := range x.Call.Args {
+			if _, isP := a.(*ssa.Parameter); !isP {
+				allParams = false
+			}
+			if strings.HasSuffix(typeStr(a.Type()), "address.Address") {
+				usesAddr = true
+			}
+		}
+		return allParams && usesAddr
+	case *ssa.Parameter:
+		idx := -1
+		for i, p := range f.Params {
+			if p == x {
+				idx = i
+			}
+		}
+		if idx < 0 {
+			return false
+		}
+		sites, okAll := 0, true
+		for _, g := range c.RepoFns {
+			if c.isTestFile(g.Pos()) {
+				continue
+			}
+			eachCall(g, func(cs ssa.CallInstruction) {
+				if cs.Common().StaticCallee() != f || idx >= len(cs.Common().Args) {
+					return
+				}
+				sites++
+				if !c.pathFromAddress(cs.Common().Args[idx], g, depth+1) {
+					okAll = false
+				}
+			})
+		}
+		return sites > 0 && okAll
+	}
+	return false
 }
 
 // ---------------------------------------------------------------------------
